@@ -4,6 +4,7 @@ package executor
 
 import (
 	"context"
+	"time"
 
 	"github.com/ChainSafe/sygma-relayer/store"
 	"github.com/btcsuite/btcd/wire"
@@ -35,4 +36,11 @@ func (e *Executor) VerifC17StoreProposalsStatus(ps []*BtcTransferProposal, st st
 func (e *Executor) VerifC17WatchExecution(ctx context.Context, cancel context.CancelFunc, tx *wire.MsgTx,
 	props []*BtcTransferProposal, sigChn chan interface{}, sessionID, messageID string) error {
 	return e.watchExecution(ctx, cancel, tx, props, sigChn, sessionID, messageID)
+}
+
+// VerifC17SetSigningTimeout sets the package variable signingTimeout and returns the previous value.
+func VerifC17SetSigningTimeout(d time.Duration) time.Duration {
+	old := signingTimeout
+	signingTimeout = d
+	return old
 }
